@@ -189,8 +189,9 @@ class DFXPReader(BaseReader):
         microseconds += int(clock_time_match.group('seconds')) * \
                         MICROSECONDS_PER_UNIT["seconds"]
         if clock_time_match.group('sub_frames'):
-            microseconds += int(clock_time_match.group('sub_frames').ljust(
-                3, '0')) * MICROSECONDS_PER_UNIT["milliseconds"]
+            # the fraction of a second, truncated to whole microseconds
+            microseconds += int(
+                clock_time_match.group('sub_frames')[:6].ljust(6, '0'))
         elif clock_time_match.group('frames'):
             microseconds += int(clock_time_match.group('frames')) / 30 * \
                             MICROSECONDS_PER_UNIT["seconds"]
